@@ -72,7 +72,7 @@ Lemma stopped_mono_c rc s l s1 : In (l, s1) (cstep rc s) ->
   | _ => False
   end.
 Proof.
-  intros H. dst s; destruct rc; unfold cstep, stopped_of in *; cbn in *;
+  intros H. dst s; destruct rc; unfold cstep, do_cancel, stopped_of in *; cbn in *;
   crunch H; cbn in *; splitifs; repeat split; auto.
 Qed.
 
@@ -153,7 +153,7 @@ Proof.
   pose proof (inv1_cancelled_stopped _ _ I) as HC.
   pose proof (proj1 (proj2 (proj2 (proj2 (proj2 I))))) as HR.
   unfold R_order. split; [exact I1|]. split; [exact B|]. clear I I1.
-  dst s; destruct rc; unfold stopped_of, sstep, end_attempt, rest_ok, expected, cancelled in *; cbv zeta in *; cbn in *;
+  dst s; destruct rc; unfold stopped_of, sstep, end_attempt, do_cancel, rest_ok, expected, cancelled in *; cbv zeta in *; cbn in *;
   crunch H; cbn in *; splitifs; (split; [exact St|]).
   all: try exact Logic.I.
   all: try (match goal with
@@ -184,7 +184,7 @@ Proof.
   pose proof (proj1 (proj2 (proj2 (proj2 (proj2 I))))) as HR.
   unfold R_order. clear I.
   destruct m as [ms mr mc mb]; cbn in B; subst mb.
-  dst s; destruct rc; unfold stopped_of, sstep, end_attempt, rest_ok, expected, cancelled in *; cbv zeta in *; cbn in *;
+  dst s; destruct rc; unfold stopped_of, sstep, end_attempt, do_cancel, rest_ok, expected, cancelled in *; cbv zeta in *; cbn in *;
   crunch H; cbn in *; splitifs.
   all: try (match goal with
             | E : nth_error _ _ = Some _ |- _ => rewrite (skipn_nth_some _ _ _ E) in *; cbn in *
